@@ -1,0 +1,183 @@
+//go:build verif
+
+// Machine-checked contracts for package key_certificate (comment-only file;
+// never compiled into the library).  Read by /verif/engine (gvc).
+
+package key_certificate
+
+//@ import "github.com/go-i2p/common/certificate"
+//@ import "github.com/go-i2p/crypto/types"
+
+// ---- the specification's tables (I2P common structures 0.9.67), written from
+// ---- the document, not from the code.  -1 = unknown / not assigned.
+
+//@ spec func SpecSigPubLen(t int) int {
+//@   switch t {
+//@   case 0: return 128
+//@   case 1: return 64
+//@   case 2: return 96
+//@   case 3: return 132
+//@   case 4: return 256
+//@   case 5: return 384
+//@   case 6: return 512
+//@   case 7: return 32
+//@   case 8: return 32
+//@   case 11: return 32
+//@   }
+//@   return -1
+//@ }
+
+//@ spec func SpecSigLen(t int) int {
+//@   switch t {
+//@   case 0: return 40
+//@   case 1: return 64
+//@   case 2: return 96
+//@   case 3: return 132
+//@   case 4: return 256
+//@   case 5: return 384
+//@   case 6: return 512
+//@   case 7: return 64
+//@   case 8: return 64
+//@   case 11: return 64
+//@   }
+//@   return -1
+//@ }
+
+//@ spec func SpecCryptoPubLen(t int) int {
+//@   switch t {
+//@   case 0: return 256
+//@   case 1: return 64
+//@   case 2: return 96
+//@   case 3: return 132
+//@   case 4: return 32
+//@   case 5: return 32
+//@   case 6: return 32
+//@   case 7: return 32
+//@   }
+//@   return -1
+//@ }
+
+// ---- size lookups: every one equals the specification's table for every int
+
+//@ contract GetSigningKeySize(signingType int) (size int, err error)
+//@   ensures @C10 (err == nil) == (SpecSigPubLen(signingType) >= 0)
+//@   ensures @C10 err == nil ==> size == SpecSigPubLen(signingType)
+//@   ensures err != nil ==> size == 0
+//@   modifies nothing
+
+//@ contract GetSignatureSize(signingType int) (size int, err error)
+//@   ensures @C10 (err == nil) == (SpecSigLen(signingType) >= 0)
+//@   ensures @C10 err == nil ==> size == SpecSigLen(signingType)
+//@   ensures err != nil ==> size == 0
+//@   modifies nothing
+
+//@ contract GetCryptoKeySize(cryptoType int) (size int, err error)
+//@   ensures @C10 (err == nil) == (SpecCryptoPubLen(cryptoType) >= 0)
+//@   ensures @C10 err == nil ==> size == SpecCryptoPubLen(cryptoType)
+//@   ensures err != nil ==> size == 0
+//@   modifies nothing
+
+//@ contract GetKeySizes(signingType int, cryptoType int) (info KeySizeInfo, err error)
+//@   ensures @C10 (err == nil) == (SpecSigPubLen(signingType) >= 0 && SpecCryptoPubLen(cryptoType) >= 0)
+//@   ensures @C10 err == nil ==> info.SignatureSize == SpecSigLen(signingType) && info.SigningPublicKeySize == SpecSigPubLen(signingType) && info.CryptoPublicKeySize == SpecCryptoPubLen(cryptoType)
+//@   modifies nothing
+
+// ---- representation
+
+//@ spec func KeyCertInv(k *KeyCertificate) bool {
+//@   return k != nil && certificate.CertInv(&k.Certificate) && len(k.SpkType) == 2 && len(k.CpkType) == 2
+//@ }
+
+//@ spec func SigType(k *KeyCertificate) int { return u16(k.SpkType) }
+//@ spec func CryptoType(k *KeyCertificate) int { return u16(k.CpkType) }
+
+//@ spec func max0(x int) int {
+//@   if x < 0 { return 0 }
+//@   return x
+//@ }
+
+//@ contract (keyCertificate KeyCertificate) SigningPublicKeyType() (t int)
+//@   requires len(keyCertificate.SpkType) == 2
+//@   ensures t == u16(keyCertificate.SpkType)
+//@   modifies nothing
+
+//@ contract (keyCertificate KeyCertificate) PublicKeyType() (t int)
+//@   requires len(keyCertificate.CpkType) == 2
+//@   ensures t == u16(keyCertificate.CpkType)
+//@   modifies nothing
+
+//@ contract (keyCertificate KeyCertificate) SigningPublicKeySize() (size int)
+//@   requires len(keyCertificate.SpkType) == 2
+//@   ensures @C10 size == max0(SpecSigPubLen(u16(keyCertificate.SpkType)))
+//@   modifies nothing
+
+//@ contract (keyCertificate KeyCertificate) SignatureSize() (size int)
+//@   requires len(keyCertificate.SpkType) == 2
+//@   ensures @C10 size == max0(SpecSigLen(u16(keyCertificate.SpkType)))
+//@   modifies nothing
+
+//@ contract (keyCertificate KeyCertificate) CryptoSize() (size int)
+//@   requires len(keyCertificate.CpkType) == 2
+//@   ensures @C10 size == max0(SpecCryptoPubLen(u16(keyCertificate.CpkType)))
+//@   modifies nothing
+
+//@ contract (keyCertificate KeyCertificate) CryptoPublicKeySize() (size int, err error)
+//@   requires len(keyCertificate.CpkType) == 2
+//@   ensures @C10 (err == nil) == (SpecCryptoPubLen(u16(keyCertificate.CpkType)) >= 0)
+//@   ensures @C10 err == nil ==> size == SpecCryptoPubLen(u16(keyCertificate.CpkType))
+//@   modifies nothing
+
+// ---- parsing
+
+//@ contract NewKeyCertificate(bytes []byte) (key_certificate *KeyCertificate, remainder []byte, err error)
+//@   ensures @C01 @C03 (err == nil) == (len(bytes) >= 3 && u16(bytes[1:3]) <= len(bytes)-3 && bytes[0] == 5 && u16(bytes[1:3]) >= 4)
+//@   ensures @C03 err == nil ==> suffix(remainder, bytes, 3+u16(bytes[1:3]))
+//@   ensures @C01 err == nil ==> KeyCertInv(key_certificate) && seqeq(certificate.CertWire(&key_certificate.Certificate), bytes[:3+u16(bytes[1:3])])
+//@   ensures @C01 @C10 err == nil ==> certificate.CertType(&key_certificate.Certificate) == 5 && SigType(key_certificate) == u16(bytes[3:5]) && CryptoType(key_certificate) == u16(bytes[5:7])
+//@   ensures @C08 err == nil ==> fresh(key_certificate.SpkType) && fresh(key_certificate.CpkType) && fresh(certificate.CertPayload(&key_certificate.Certificate))
+//@   ensures err != nil ==> key_certificate == nil
+//@   modifies nothing
+
+//@ contract KeyCertificateFromCertificate(cert *certificate.Certificate) (kc *KeyCertificate, err error)
+//@   requires cert == nil || certificate.CertInv(cert)
+//@   ensures @C19 (err == nil) == (cert != nil && certificate.CertType(cert) == 5 && certificate.CertLen(cert) >= 4 && len(certificate.CertPayload(cert)) >= 4)
+//@   ensures @C19 err == nil ==> KeyCertInv(kc) && seqeq(certificate.CertWire(&kc.Certificate), certificate.CertWire(cert)) && SigType(kc) == u16(certificate.CertPayload(cert)[0:2]) && CryptoType(kc) == u16(certificate.CertPayload(cert)[2:4])
+//@   ensures err != nil ==> kc == nil
+//@   modifies nothing
+
+// ---- key construction: which bytes of the 384-byte block become the keys
+
+//@ contract (keyCertificate KeyCertificate) ConstructPublicKey(data []byte) (public_key types.ReceivingPublicKey, err error)
+//@   requires len(keyCertificate.CpkType) == 2
+//@   ensures @C10 (err == nil) == (len(data) >= 256 && (u16(keyCertificate.CpkType) == 0 || (4 <= u16(keyCertificate.CpkType) && u16(keyCertificate.CpkType) <= 7)))
+//@   ensures @C10 @C02 err == nil ==> public_key != nil && public_key.Len() == SpecCryptoPubLen(u16(keyCertificate.CpkType)) && seqeq(public_key.Bytes(), data[:SpecCryptoPubLen(u16(keyCertificate.CpkType))])
+//@   ensures @C08 err == nil ==> fresh(public_key.Bytes())
+//@   ensures err != nil ==> public_key == nil
+//@   modifies nothing
+
+//@ spec func sigKeyOK(t int, n int) bool {
+//@   return (t == 0 && n >= 128) || (t == 1 && n >= 64) || (t == 2 && n >= 96) || ((t == 7 || t == 8 || t == 11) && n == 32)
+//@ }
+
+//@ spec func sigKeyStart(t int, n int) int {
+//@   if (t == 0 || t == 1 || t == 2) && n >= 128 { return 128 - SpecSigPubLen(t) }
+//@   return 0
+//@ }
+
+//@ contract (keyCertificate KeyCertificate) ConstructSigningPublicKey(data []byte) (signing_public_key types.SigningPublicKey, err error)
+//@   requires len(keyCertificate.SpkType) == 2
+//@   ensures @C10 (err == nil) == sigKeyOK(u16(keyCertificate.SpkType), len(data))
+//@   ensures @C10 @C02 err == nil ==> signing_public_key != nil && signing_public_key.Len() == SpecSigPubLen(u16(keyCertificate.SpkType)) && seqeq(signing_public_key.Bytes(), data[sigKeyStart(u16(keyCertificate.SpkType), len(data)):sigKeyStart(u16(keyCertificate.SpkType), len(data))+SpecSigPubLen(u16(keyCertificate.SpkType))])
+//@   ensures @C08 err == nil ==> fresh(signing_public_key.Bytes())
+//@   ensures err != nil ==> signing_public_key == nil
+//@   modifies nothing
+
+//@ lemma C10_TablesAgree(t int) {
+//@   a, e1 := GetSigningKeySize(t)
+//@   b, e2 := GetSignatureSize(t)
+//@   assert((e1 == nil) == (e2 == nil))
+//@   assert(e1 == nil ==> a == SpecSigPubLen(t) && b == SpecSigLen(t))
+//@   c, e3 := GetCryptoKeySize(t)
+//@   i, e4 := GetKeySizes(t, t)
+//@   assert(e4 == nil ==> e1 == nil && e3 == nil && i.SigningPublicKeySize == a && i.SignatureSize == b && i.CryptoPublicKeySize == c)
+//@ }
